@@ -150,6 +150,11 @@ def check_effect(prop, expr, ref: RG, X, Y, Z, tag, case):
             except Unbound as u:
                 kernel.violation(prop, "unbound-variable", f"estimand {expr} has unvalued variable {u.name}", case=case)
                 return
+            except KeyError as k:
+                # a name the model does not have (bound by a sum, so not among the free variables above)
+                kernel.violation(prop, "variable-outside-graph", f"estimand {expr} ranges over {k} which is not a node of "
+                                 f"the graph {gd_of(ref)}", case=case)
+                return
             num = m.p({**{y: env[y] for y in Yn}, **{z: env[z] for z in Zn}}, do)
             if Zn:
                 dz = m.p({z: env[z] for z in Zn}, do)
